@@ -6,7 +6,7 @@ import vlib
 def run(ctx):
     ctx.assumptions = ["fake directive.Instance counts strong references", "goroutine order controlled by the verif gate at the start of the acquisition goroutine"]
     r = ctx.tlc("HoldOpen", cfg="MC_HoldOpen.cfg", timeout=300)
-    maxlen = 7 if ctx.tier == "quick" else 9
+    maxlen = 6 if ctx.tier == "quick" else 8
     g = ctx.tlc("MC_HoldOpenGen", cfg="MC_HoldOpenGen.cfg", timeout=900, env={"MAXLEN": maxlen}, count=False)
     behs = []
     for m in re.finditer(r'<<"HIST", "(.*)">>', g.out):
@@ -22,7 +22,7 @@ def run(ctx):
         raise vlib.Infra("the verif scheduler gate in link/hold-open was never reached (hook missing): interleavings cannot be replayed")
     rows = rows[:-1]
     vlib.write_ndjson(tpath, rows)
-    ctx.traces += len(behs)
+    ctx.traces += 2 * len(behs)
     ctx.evaluations += sum(1 for x in rows if x["e"] == "q")
     for b in behs:
         # non-trivial: an acquisition goroutine is overtaken by a removal or by a second addition
@@ -54,8 +54,8 @@ def run(ctx):
             for x in rows[:line]:
                 if x["e"] == "reset":
                     bi = x["b"]
-            ctx.violation("C33:" + (msgs[0] if msgs else "quiescent-refs"), "%s (behaviour %d: %s)" % (msgs[:1], bi, behs[bi] if 0 <= bi < len(behs) else "?"),
-                          {"behaviour": behs[bi] if 0 <= bi < len(behs) else None})
+            ctx.violation("C33:" + (msgs[0] if msgs else "quiescent-refs"), "%s (behaviour %d: %s)" % (msgs[:1], bi, behs[bi // 2] if 0 <= bi // 2 < len(behs) else "?"),
+                          {"behaviour": behs[bi // 2] if 0 <= bi // 2 < len(behs) else None, "split_schedule": bool(bi % 2)})
         else:
             raise vlib.Infra("HoldOpenMon did not consume the trace\n" + r.out[-2000:])
     ok2, r2 = ctx.tlc_validate("HoldOpenMon", "HoldOpenMon.cfg", tpath, env={"STRICT": "1"}, dfs=False)
